@@ -117,7 +117,14 @@ def run_check(P, pid, tier, seed, t0, a):
     hits = core.forbidden_scan()
     if hits:
         raise MachineryError("forbidden tokens in Lean sources:\n" + "\n".join(hits[:20]))
-    targets = [f"Cgm.Props.{pid}", "cgdriver"]
+    # the property's theorem files: Props/<pid>.lean and its continuation files Props/<pid>b.lean, <pid>c.lean ...
+    import glob as _glob
+    extra = sorted(os.path.basename(f)[:-5] for f in _glob.glob(f"{core.LEAN}/Cgm/Props/{pid}[a-z].lean"))
+    targets = [f"Cgm.Props.{pid}"] + [f"Cgm.Props.{m}" for m in extra] + ["cgdriver"]
+    audit_src = open(f"{core.LEAN}/Cgm/Audit/{pid}.lean").read()
+    for m in extra:
+        if f"import Cgm.Props.{m}" not in audit_src:
+            raise MachineryError(f"Cgm/Audit/{pid}.lean does not import Cgm.Props.{m}: its theorems would not be audited")
     t1 = time.time()
     rc, out = core.lake_build(targets)
     if rc != 0:
@@ -129,9 +136,10 @@ def run_check(P, pid, tier, seed, t0, a):
     log(f"[{pid}] P: {len(thms)} theorems, axioms ok ({t_lean:.1f}s)")
     if tier == "thorough":
         # independent re-check of the compiled property module by the toolchain's leanchecker
-        rc, out = core.run(["lake", "env", "leanchecker", f"Cgm.Props.{pid}"], cwd=core.LEAN, timeout=3000)
-        if rc != 0:
-            raise MachineryError(f"leanchecker rejected Cgm.Props.{pid}:\n{out[-3000:]}")
+        for m in [pid] + extra:
+            rc, out = core.run(["lake", "env", "leanchecker", f"Cgm.Props.{m}"], cwd=core.LEAN, timeout=3000)
+            if rc != 0:
+                raise MachineryError(f"leanchecker rejected Cgm.Props.{m}:\n{out[-3000:]}")
         notes.append(f"leanchecker re-checked Cgm.Props.{pid}")
         log(f"[{pid}] P: leanchecker accepted Cgm.Props.{pid}")
 
